@@ -215,6 +215,22 @@ class Interp:
             if isinstance(v, (tuple, list, dict)):
                 return len(v)
             raise AnalysisError('len() of %r' % (v,))
+        if isinstance(f, ast.Name) and f.id == 'getattr' and len(n.args) in (2, 3) \
+                and isinstance(n.args[1], ast.Constant):
+            base = self.ev(n.args[0], env)
+            if isinstance(base, Opaque) and base.attrs is not None:
+                if n.args[1].value in base.attrs:
+                    v = base.attrs[n.args[1].value]
+                    if isinstance(v, Raised):
+                        raise v
+                    return v
+                if len(n.args) == 3:
+                    return self.ev(n.args[2], env)
+                raise Raised('AttributeError')
+            if base is None:
+                if len(n.args) == 3:
+                    return self.ev(n.args[2], env)
+                raise Raised('AttributeError')
         if isinstance(f, ast.Name) and f.id == 'isinstance':
             h = self.hooks.get('isinstance')
             if h is not None:
@@ -226,6 +242,9 @@ class Interp:
                 and f.value.id == 'self' and ('self.' + f.attr) in self.functions:
             args = [env['self']] + [self.ev(a, env) for a in n.args]
             return self.run(self.functions['self.' + f.attr], args)
+        if isinstance(f, ast.Name) and f.id in env and callable(env[f.id]) \
+                and not isinstance(env[f.id], Opaque):
+            return env[f.id](*[self.ev(a, env) for a in n.args])
         h = self.hooks.get('call')
         if h is not None:
             return h(n, env, self)
@@ -235,6 +254,12 @@ class Interp:
     class _Return(Exception):
         def __init__(self, v):
             self.v = v
+
+    class _Break(Exception):
+        pass
+
+    class _Continue(Exception):
+        pass
 
     def run(self, func, args, kwargs=None):
         env = {}
@@ -285,6 +310,30 @@ class Interp:
             self.block(st.body if self.truth(self.ev(st.test, env), st.test)
                        else st.orelse, env)
             return
+        if isinstance(st, ast.For):
+            seq = self.ev(st.iter, env)
+            if not isinstance(seq, (list, tuple)):
+                raise AnalysisError('iteration over %r' % (seq,))
+            broke = False
+            for item in list(seq):
+                if isinstance(st.target, ast.Name):
+                    env[st.target.id] = item
+                else:
+                    raise AnalysisError('unsupported loop target')
+                try:
+                    self.block(st.body, env)
+                except Interp._Break:
+                    broke = True
+                    break
+                except Interp._Continue:
+                    continue
+            if not broke:
+                self.block(st.orelse, env)
+            return
+        if isinstance(st, ast.Break):
+            raise Interp._Break()
+        if isinstance(st, ast.Continue):
+            raise Interp._Continue()
         if isinstance(st, ast.Pass):
             return
         if isinstance(st, ast.Raise):
